@@ -18,6 +18,7 @@ fn component(name: &str) -> (ExecFn, GenFn) {
     match name {
         "edit" => (p_edit::exec, p_edit::gen),
         "pipe" => (p_pipe::exec, p_pipe::gen),
+        "buffered" => (p_pipe::exec_buffered, p_pipe::gen_buffered),
         _ => {
             eprintln!("unknown component {name}");
             std::process::exit(2)
